@@ -13,7 +13,13 @@ def tiers(tier, quick, thorough):
 def uniform_sel(tomo, sysname, over):
     """tester selections with equal outcome counts (the estimator stacks the empirical distributions with np.vstack);
     over=True adds redundant testers (over-complete)"""
-    if sysname == "Q1":
+    if sysname == "Q1" and over == "uneven":
+        povms = [7, 8, 9]            # 3-outcome POVMs with elements of unequal trace (outcome count != dimension)
+        states = [4, 1, 2, 3]
+    elif sysname == "Q1" and over == "unbal2":
+        povms = [0, 6, 1]            # one 2-outcome POVM with elements of unequal trace
+        states = [4, 1, 2, 3]
+    elif sysname == "Q1":
         povms = [0, 1, 2] + ([5] if over else [])
         states = [0, 1, 2, 3] + ([4] if over else [])
     else:
@@ -53,9 +59,16 @@ def ob_recover(tomo, sysname, m, flag, over):
         ref = c08.born_reference(tomo, sysname, m, flag, x, sched, sel)
         n1, n2 = I["n1"], I["n2"]
         est = LinearEstimator()
+        # the same estimator instance is first used on a sibling tomography (same class and sizes, testers rotated): an estimator
+        # carries no state from one tomography to the next
+        sel_sib = {k: list(v[1:]) + [v[0]] for k, v in sel.items()}
+        qt_sib, _ = tomo_lib.build(tomo, sysname, m=m, flag=flag, sel=sel_sib)
+        ref_sib = c08.born_reference(tomo, sysname, m, flag, x, c08.default_schedules(tomo, sel_sib), sel_sib)
+        r0 = est.calc_estimate(qt_sib, [as_dist(ps, n1) for ps in ref_sib])
         r1 = est.calc_estimate(qt, [as_dist(ps, n1) for ps in ref])
         r2 = est.calc_estimate(qt, [as_dist(ps, n2) for ps in ref])
-        out = [Eq("estimated_var == true variables", r1.estimated_var, x, 1e-7),
+        out = [Eq("sibling tomography (testers rotated), same estimator instance: estimated_var == true variables", r0.estimated_var, x, 1e-7),
+               Eq("estimated_var == true variables", r1.estimated_var, x, 1e-7),
                Eq("estimate independent of the sample counts", r2.estimated_var, r1.estimated_var, 0.0)]
         obj = r1.estimated_qoperation
         truth = np.array(c03.ref_stacked_from_var(TOMO_TYPE[tomo], d, m, flag, x), dtype=object)
@@ -118,7 +131,10 @@ def obligations(tier):
                 if tomo in ("qpt",) and s == "T1" and tier == "quick":
                     continue
                 for flag in (True, False):
-                    for over in ((False, True) if s == "Q1" else (False,)):
+                    overs = (False, True) if s == "Q1" else (False,)
+                    if s == "Q1" and tomo in ("qst", "qpt"):
+                        overs = overs + ("uneven", "unbal2")
+                    for over in overs:
                         if tier == "quick" and tomo == "qmpt" and (m == 3 and over):
                             continue
                         cfg = {"tomo": tomo, "sysname": s, "m": m, "flag": flag, "over": over}
